@@ -183,8 +183,8 @@ func runStream(r Round) *outcome {
 	feed.Close()
 	sink.Close()
 	openGate()
-	if !rc.wait(10 * time.Second) {
-		o.failf("C16/stream/operation-did-not-return", "Close or an in-flight Read/WritePacket did not return within 10s after both transports were closed")
+	if ok, dump := rc.waitBlocked(10*time.Second, 40*time.Second); !ok {
+		o.failf("C16/stream/operation-did-not-return", "Close or an in-flight Read/WritePacket did not return within 10s after both transports were closed"+"; goroutines inside the code under test:\n%s", dump)
 		return o
 	}
 	rc.measure(o)
